@@ -342,6 +342,33 @@ def check_datagroup_histories(run, tree):
         r = do("set", "a", A("a2", 3), expect_raise="ValueError")
         return r and {k: v[1] for k, v in group_state(tree, hooks, g).items()} == {"a": (5,), "b": (5,), "c": (5,)}, "state %s" % {k: v[1] for k, v in group_state(tree, hooks, g).items()}
 
+    @hist("layer() hands out the members the group holds NOW: a member replaced under its key (re-centred positions, sorted data) is what the next layer carries",
+          "group.layer(k) made after group['position'] = new still carries the old positions ('top'/'side' orientations and maps follow stale data)")
+    def h17(g, do):
+        lm = tree.method(tree.cls(DG_Q), "layer")
+        if lm is None:
+            return True, "Datagroup.layer is not defined"
+        for k in ("position", "mass", "velocity", "dx", "rho"):
+            do("set", k, A(k + "-1", 3))
+
+        def aux_of(layer):
+            found = {}
+            for v in (layer._attrs.values() if isinstance(layer, PyObj) else []):
+                if isinstance(v, dict):
+                    for kk, vv in v.items():
+                        if kk in ("position", "mass", "velocity", "dx"):
+                            found[kk] = getattr(vv, "origin", vv)
+            return found
+        l1 = call_method(tree, hooks, g, "layer", "rho")
+        first = aux_of(l1)
+        do("set", "position", A("position-2", 3))
+        do("set", "mass", A("mass-2", 3))
+        l2 = call_method(tree, hooks, g, "layer", "rho")
+        second = aux_of(l2)
+        ok = first == {"position": "position-1", "mass": "mass-1", "velocity": "velocity-1", "dx": "dx-1"} and \
+            second == {"position": "position-2", "mass": "mass-2", "velocity": "velocity-1", "dx": "dx-1"} and aux_of(l1) == first
+        return ok, "first layer carries %s; after replacing position and mass the next layer carries %s" % (first, second)
+
     def construct_group(*args, **kwargs):
         ev = _ev(tree, hooks, DG_Q + ".__init__")
         try:
